@@ -160,6 +160,7 @@ def check(ctx: Ctx) -> None:
                     and isinstance(repo.fold_in(n.slice, f_from), int)] or [-1])
         for cname in ("Popen2IO", "SocketIO"):
             m = repo.cls(cname).methods.get("read")
+            m = repo.flat(m) if m is not None else None
             ob.require(m is not None, f"{cname}.read vanished")
             rs = [n for n in repo.own_nodes(m) if isinstance(n, ast.Raise) and n.exc is not None and unparse(n.exc).split("(")[0] == "EOFError"]
             for r in rs:
